@@ -426,8 +426,26 @@ func (c *Ctx) c10Dates(n int) {
 	}
 	// elapsed forms agree with the 24-hour value
 	for i := 0; i < n/4; i++ {
-		serial := float64(c.Rng.Intn(400)) + float64(c.Rng.Intn(86400))/86400
-		total := int(math.Round(serial * 86400))
+		days, sec := c.Rng.Intn(400), c.Rng.Intn(86400)
+		frac := 0.0
+		switch i % 4 {
+		case 1:
+			// a fraction of a second (not within 2 ms of a half): the elapsed value is that of the instant rounded
+			// to the nearest second, also when rounding crosses midnight
+			frac = []float64{0.25, 0.4, 0.6, 0.75, 0.9, 0.999}[c.Rng.Intn(6)]
+		case 2:
+			sec, frac = 86399, []float64{0.6, 0.75, 0.9, 0.99}[c.Rng.Intn(4)]
+		case 3:
+			days = []int{400, 1000, 45000, 60000, 106000}[c.Rng.Intn(5)] + c.Rng.Intn(300)
+		}
+		serial := float64(days) + (float64(sec)+frac)/86400
+		total := days*86400 + sec
+		if frac > 0.5 {
+			total++
+		}
+		if back, err := strconv.ParseFloat(strconv.FormatFloat(serial, 'f', -1, 64), 64); err != nil || math.Abs(back*86400-(float64(days)*86400+float64(sec)+frac)) > 0.002 {
+			continue
+		}
 		vtxt := strconv.FormatFloat(serial, 'f', -1, 64)
 		for _, tc := range []struct{ code, want string }{
 			{"[h]:mm:ss", fmt.Sprintf("%d:%02d:%02d", total/3600, total/60%60, total%60)},
